@@ -35,7 +35,7 @@ CHECKS = {
          "DESIGN.md §4 C01"),
  "C18": ("exploration",
          "hostile-input monitoring of every bundled analyzer, tokenizer, token filter configuration and char filter in child processes (panic capture, progress watchdog) with token-stream oracles (determinism, position increments, offset ranges, tokenizer slice equality) and an index/search round trip",
-         "Script-aware and byte-level generators, plus an enumerated sweep of all (rune, mark) / (mark, rune) pairs over nine script blocks x 22 combining, voiced, joiner and width marks, feed all 24 analyzers, 8 tokenizers, ~75 filter configurations (fed synthetic token streams directly, including invalid UTF-8, empty and one-rune tokens, and streams with tokens left out and position gaps as a stop filter in front produces them) and 5 char filters; every output is checked for the stated token invariants, two runs must agree, and every fourth tokenised text is indexed and must be found by a match query requiring all of its own terms. Held on the inputs explored.",
+         "Script-aware and byte-level generators, plus an enumerated sweep of all (rune, mark) / (mark, rune) pairs over nine script blocks x 22 combining, voiced, joiner and width marks, feed all 24 analyzers, 8 tokenizers, ~75 filter configurations (fed synthetic token streams directly, including invalid UTF-8, empty and one-rune tokens, and streams with tokens left out and position gaps as a stop filter in front produces them) and 5 char filters; every output is checked for the stated token invariants, two runs must agree, every fourth tokenised text is indexed and must be found by a match query requiring all of its own terms, and one analyzer instance is used by four goroutines at once and by the analysis workers of a real 48-document batch (tokens must equal those of a fresh instance used alone; every document of the batch must be found by its own text). Held on the inputs explored.",
          "Trusts: child-process observation; the analyzer's own CharFilters define 'the text the tokenizer saw'. The round trip hands the field its own copy of the bytes (token filters rewrite terms in place).",
          "DESIGN.md §4 C18"),
  "C20": ("exploration",
@@ -50,7 +50,7 @@ CHECKS = {
          "DESIGN.md §4 C14"),
  "C11": ("exploration",
          "on-line invariant monitor hooked into a recording Directory wrapper (directory read back, decoded and CRC-checked after every snapshot persist and every remove; closer pairing; /proc/self/fd; reopen; second-writer refusal) under merge-happy runs with jitter, plus a lock hand-off stress",
-         "During real merge-happy runs with retention 1..3 the monitor evaluates, at every boundary after a snapshot persist or a remove and with no operation half-way, that enough loadable snapshots with all their segment files exist and that a removed segment does not belong to the live root; at the end every Load closer must have been closed exactly once, no descriptor under the directory may be open, the directory must reopen at once with the right content and further writers must have been refused harmlessly (three attempts in a row at three moments of the first writer's life: a refusal must leave the lock in force). Held on the runs observed; the lock hand-off race is a listed finding. Both tiers run on the ordinary and on the yield-instrumented build (see C01).",
+         "During real merge-happy runs with retention 1..3 the monitor evaluates, at every boundary after a snapshot persist or a remove and with no operation half-way, that enough loadable snapshots with all their segment files exist and that a removed segment does not belong to the live root; one run in six injects a single transient snapshot write error and the retention invariant must hold across it; at the end every Load closer must have been closed exactly once, no descriptor under the directory may be open, the directory must reopen at once with the right content and further writers must have been refused harmlessly (three attempts in a row at three moments of the first writer's life: a refusal must leave the lock in force). Held on the runs observed; the lock hand-off race is a listed finding. Both tiers run on the ordinary and on the yield-instrumented build (see C01).",
          "Trusts: the recording wrapper (operations serialised against the read-back only), the harness' decoder use (real ReadFrom + CRC).",
          "DESIGN.md §4 C11"),
  "C02": ("fault_enumeration",
@@ -80,22 +80,22 @@ CHECKS = {
          "DESIGN.md §4 C08"),
  "C17": ("exploration",
          "metamorphic runtime oracles on real scores (direct similarity calls on boundary statistics, metamorphic corpora, per-query-type boost ratios, compound = boost x sum of separately searched parts) and an evaluator of every explanation node's stated formula",
-         "Scores produced by the real similarity and searchers are checked for finiteness/positivity and the four monotonicity/linearity laws on boundary statistics and on constructed corpora; every explanation tree returned for generated query trees is re-evaluated node by node from its message templates and compared with the unexplained score. Held on the statistics, corpora and queries explored; eight listed findings (idf message, boost handling of six query types, non-positive fuzzy scores) are reported as KNOWN-FINDING.",
+         "Scores produced by the real similarity and searchers are checked for finiteness/positivity and the four monotonicity/linearity laws on boundary statistics and on constructed corpora, including twin indexes (the scored field alone vs. the same documents with a second field repeating the terms and a composite field) that must score the field identically; every explanation tree returned for generated query trees is re-evaluated node by node from its message templates and compared with the unexplained score. Held on the statistics, corpora and queries explored; eight listed findings (idf message, boost handling of six query types, non-positive fuzzy scores) are reported as KNOWN-FINDING.",
          "Trusts: float tolerance 1e-9 (widened by eps/x where the implementation's w - w/(1+x) form cancels); the six message templates as the definition of 'the formula stated in the message'.",
          "DESIGN.md §4 C17"),
  "C16": ("exploration",
          "runtime oracle: every aggregation calculator of real searches compared with direct computation over the reference model's matched documents, across request variants",
-         "Generated aggregation trees (metrics, cardinality, quantiles, terms, numeric/date ranges, nested to depth 2, several aggregations per field) on generated corpora and queries are computed by the real collectors under 8 request variants (n from 0 to 1000, from, three sort orders, search-after, all-matches collector) and each calculator is compared with direct counting over the model's match set. Held on the inputs explored.",
+         "Generated aggregation trees (metrics, cardinality, quantiles, terms, numeric/date ranges, nested to depth 2, several aggregations per field, and in a third of the requests aggregations over filtered sources as siblings of plain ones over the same fields) on generated corpora and queries are computed by the real collectors under 8 request variants (n from 0 to 1000, from, three sort orders, search-after, all-matches collector) and each calculator is compared with direct counting over the model's match set. Held on the inputs explored.",
          "Trusts: the reference evaluator for the match set; HyperLogLog insertion-order independence (checked in the design phase); float tolerance 1e-9. Terms ties and multi-valued range counts judged only as far as the property fixes them.",
          "DESIGN.md §4 C16"),
  "C09": ("exploration",
          "differential runtime oracle: TopN(n, from, sort) and After/Before page chains of the real collectors against the complete match list ordered by a reference comparator over model values",
-         "For generated corpora, queries, sort orders (<= 3 keys, score/text/numeric/date, asc/desc, missing first/last) and (n, from) on both sides of the slice/heap switch, the result count and the pre-allocation cap (with dedicated corpora of 1100-2000 documents so that more than 1000 matches exist beyond the cap), the returned ids must equal elements [from, from+n) of the reference ranking; After and Before chains under a total order must visit every match once in order for all page sizes, with fresh and with re-used sort order objects. Held on the inputs explored.",
+         "For generated corpora, queries, sort orders (<= 3 keys, score/text/numeric/date, asc/desc, missing first/last) and (n, from) on both sides of the slice/heap switch, the result count and the pre-allocation cap (with dedicated corpora of 1100-2000 documents so that more than 1000 matches exist beyond the cap), the returned ids must equal elements [from, from+n) of the reference ranking; After and Before chains under a total order must visit every match once in order for all page sizes, with fresh and with re-used sort order objects; a probe with present-but-empty text keys beside missing ones covers all four direction / missing placements (two of them are listed findings). Held on the inputs explored.",
          "Trusts: the reference comparator (model values, ties by enumeration order of the all-matches collector), scores taken from the all-matches run. Sort fields single-valued.",
          "DESIGN.md §4 C09"),
  "C07": ("exploration",
          "differential runtime oracle: real searches (both collectors; current-root, superseded and OpenReader readers; step-counting reader) against an independent evaluator of the documented query meanings over a reference model",
-         "Every generated query tree over every generated multi-segment corpus with pending deletions is answered by the real searchers and compared as a multiset of ids with a from-the-documentation evaluator; query lists are served in sequence by one reader so that iterator recycling and backward Advance are in play, every 10th query is repeated and must answer identically; a small scope (3 terms x 5 docs x 2 segments x fixed boolean shapes) is enumerated (sampled in quick, complete in thorough). Held on the corpora and queries explored.",
+         "Every generated query tree over every generated multi-segment corpus with pending deletions is answered by the real searchers and compared as a multiset of ids with a from-the-documentation evaluator; query lists are served in sequence by one reader so that iterator recycling and backward Advance are in play, under three collectors (all matches, scored top-N, top-N with score mode none so that the unadorned optimisations run), on layouts that include merged segments in front of never-merged ones (one-hit postings), with wide (> 10 clause) disjunctions, antimeridian-centred geo corpora and small merged-front corpora enumerating all two-term conjunctions / disjunctions / exclusions, every 10th query is repeated and must answer identically; a small scope (3 terms x 5 docs x 2 segments x fixed boolean shapes) is enumerated (sampled in quick, complete in thorough). Held on the corpora and queries explored.",
          "Trusts: the reference evaluator (calibrated against the code on ~10^5 queries, see DESIGN.md §5), Go regexp for wildcard/regexp meaning, the harness analyzer. Not decided: fuzzy pairs where restricted/unrestricted edit distance differ, geo points within 1e-3 (and within the polar/equatorial radius spread) of a boundary, ranges that run into C10's known enumeration blow-up.",
          "DESIGN.md §4 C07"),
  "C10": ("exploration",
@@ -105,7 +105,7 @@ CHECKS = {
          "DESIGN.md §4 C10"),
  "C19": ("exploration",
          "runtime oracle on mergeplan.Plan over generated inputs + sizes-only plan/execute simulator with step-counting call-back",
-         "Every generated segment list x option set is planned by the real planner and the plan is checked for membership, disjointness, size bound, half-size eligibility and determinism; termination is decided on logical steps (scoring call-backs per call); boundedness is decided at every quiescent point of simulated arrival/delete/execute histories against a budget the harness computes itself. Held on the inputs and histories explored, not a proof.",
+         "Every generated segment list x option set is planned by the real planner and the plan is checked for membership, disjointness, size bound, half-size eligibility and determinism; termination is decided on logical steps (scoring call-backs per call); boundedness is decided at every quiescent point of simulated arrival/delete/execute histories (seven option sets, integral and fractional growth factors) against a budget the harness computes itself. Held on the inputs and histories explored, not a proof.",
          "Trusts: Go runtime; unique segment ids per input; the simulator's execution model (a task is replaced by one segment holding the live sum).",
          "DESIGN.md §4 C19"),
 }
